@@ -13,7 +13,8 @@ def nodeStr : Impl.Node → String
   | .file h p => s!"file:{hex h}:{charsHex p}:text={charsHex (Impl.fileText p)}"
   | .fwfile h name => s!"fw:{hex h}:{hex name}"
   | .usb h port iface => s!"usb:{hex h}:{port}:{iface}"
-  | .nil => "nil"
+  | .vendor h g => s!"vendor:{hex h}:{hex g}"
+  | .generic h => s!"generic:{hex h}"
 
 def parseNodeStr (s : String) : Option Impl.Node :=
   match s.splitOn ":" with
